@@ -499,8 +499,10 @@ def run_conc(pid, tier, seed, replay):
                          "pairs-%s-%d.ndjson" % (k, p), "all schedules of 2-client programs %s part %d" % (k, p), None))
         jobs.append((["conc", "--kind", k, "--set", "swarms", "--max-runs", 600 if quick else 20000, "--random-runs", 300], "MemcLin",
                      "swarms-%s.ndjson" % k, "3 clients issuing the same command", None))
-        jobs.append((["conc", "--kind", k, "--set", "sampled", "--count", 12 if quick else 150, "--seed", seed, "--max-runs", 300 if quick else 3000, "--random-runs", 100],
-                     "MemcLin", "sampled-%s.ndjson" % k, "sampled 2x2 / 3-client programs", None))
+        # (the thorough tier: four jobs of 40 programs with seeds of their own - the exploration is single-threaded)
+        for sp in range(1 if quick else 4):
+            jobs.append((["conc", "--kind", k, "--set", "sampled", "--count", 12 if quick else 40, "--seed", seed + 1000 * sp, "--max-runs", 300 if quick else 3000, "--random-runs", 100],
+                         "MemcLin", "sampled-%s-%d.ndjson" % (k, sp), "sampled 2x2 / 3-client programs #%d" % sp, None))
     # the store engine on its own (Cache trait object, below MemcStore's key lock): get / set / CAS-set / delete
     if pid in ("C03", "C16"):
         for p in range(4):
